@@ -193,3 +193,78 @@ Definition splitN (o : binop) (f0 : field) (fs : list field) : outcome (list val
                | None => IndexErr
                end
   end.
+
+(* ==================================================================== tuples inside split values.
+   flatten opens lists and tuples alike (isinstance(val, (list, tuple))); input_shape only looks into
+   lists (isinstance(value, list)), so a tuple element ends its loop like an atom does.  The value that
+   is split is itself a list (Task.split wraps it in a StateArray, a list subclass; ensure_list would wrap
+   a top-level tuple as one element — not reachable through Task.split and not modelled). *)
+Inductive tvalue : Type :=
+| TLeaf (z : Z)
+| TList (l : list tvalue)
+| TTup (l : list tvalue).
+
+Fixpoint tvalue_eqb (a b : tvalue) {struct a} : bool :=
+  let go := fix go (l m : list tvalue) {struct l} : bool :=
+              match l, m with
+              | [], [] => true
+              | x :: l', y :: m' => tvalue_eqb x y && go l' m'
+              | _, _ => false
+              end in
+  match a, b with
+  | TLeaf x, TLeaf y => Z.eqb x y
+  | TList l, TList m => go l m
+  | TTup l, TTup m => go l m
+  | _, _ => false
+  end.
+
+(* flatten(vals, cur_depth, max_depth): [vals] is the container object itself, d levels are left *)
+Fixpoint tflatten (d : nat) (vals : tvalue) : list tvalue :=
+  match d with
+  | 0 => [vals]
+  | S d' =>
+      let each := fun val => match val with
+                             | TLeaf _ => [val]
+                             | _ => tflatten d' val          (* isinstance(val, (list, tuple)) *)
+                             end in
+      match vals with
+      | TList ch => flat_map each ch
+      | TTup ch => flat_map each ch
+      | TLeaf _ => [vals]                                    (* never called on an atom *)
+      end
+  end.
+
+Fixpoint tscan (f : list tvalue -> list nat) (last : option (list nat)) (inp : list tvalue)
+  : option (list nat) :=
+  match inp with
+  | [] => last
+  | TList ch :: rest =>                                      (* isinstance(value, list) *)
+      let cur := f ch in
+      match last with
+      | None => tscan f (Some cur) rest
+      | Some s => if list_eqb Nat.eqb s cur then tscan f last rest else None
+      end
+  | _ :: _ => None                                           (* atom or tuple: last_shape = None; break *)
+  end.
+
+Fixpoint tshape_rec (c : nat) (inp : list tvalue) : list nat :=
+  match c with
+  | 0 => [List.length inp]
+  | S c' =>
+      match tscan (tshape_rec c') None inp with
+      | Some s => List.length inp :: s
+      | None => [List.length (tflatten (S c) (TList inp))]
+      end
+  end.
+
+Definition tinput_shape (inp : list tvalue) (container_ndim : nat) : list nat :=
+  tshape_rec (container_ndim - 1) inp.
+
+Definition tsingle_ind (n : nat) (inp : list tvalue) : list nat := range (prod (tinput_shape inp n)).
+
+(* splitter = "x" with container_ndim = {x: n} *)
+Definition tsplit1 (n : nat) (inp : list tvalue) : outcome tvalue :=
+  match sequence (map (nth_error (tflatten n (TList inp))) (tsingle_ind n inp)) with
+  | Some l => Jobs l
+  | None => IndexErr
+  end.
